@@ -315,8 +315,13 @@ func warnInsecureConfiguration(state *RuntimeState) {
 }
 
 func (state *RuntimeState) loadSignersFromPemData(signerPem, ed25519Pem []byte) error {
+	// Nothing is assigned to the state before every check on both keys has
+	// passed: a refused load must leave the state exactly as it was.
+	var edSigner crypto.Signer
+	var ed25519CaCertDer []byte
 	if ed25519Pem != nil && len(ed25519Pem) > 0 {
-		edSigner, err := getSignerFromPEMBytes(ed25519Pem)
+		var err error
+		edSigner, err = getSignerFromPEMBytes(ed25519Pem)
 		if err != nil {
 			return err
 		}
@@ -326,13 +331,11 @@ func (state *RuntimeState) loadSignersFromPemData(signerPem, ed25519Pem []byte) 
 		default:
 			return fmt.Errorf("Ed2559 configred file is not really an Ed25519 key. Type is %T!\n", v)
 		}
-		ed25519CaCertDer, err := generateCADer(state, edSigner)
+		ed25519CaCertDer, err = generateCADer(state, edSigner)
 		if err != nil {
 			state.logger.Printf("Cannot generate Ed25519 CA DER")
 			return err
 		}
-		state.caCertDer = append(state.caCertDer, ed25519CaCertDer)
-		state.Ed25519Signer = edSigner
 	}
 	signer, err := getSignerFromPEMBytes(signerPem)
 	if err != nil {
@@ -352,12 +355,17 @@ func (state *RuntimeState) loadSignersFromPemData(signerPem, ed25519Pem []byte) 
 		state.logger.Printf("Cannot generate CA DER")
 		return err
 	}
-	state.selfRoleCaCertDer, err = generateSelfRoleRequestingCADer(state, signer)
+	selfRoleCaCertDer, err := generateSelfRoleRequestingCADer(state, signer)
 	if err != nil {
 		state.logger.Printf("Cannot generate role requesting CA DER")
 		return err
 	}
 
+	if edSigner != nil {
+		state.caCertDer = append(state.caCertDer, ed25519CaCertDer)
+		state.Ed25519Signer = edSigner
+	}
+	state.selfRoleCaCertDer = selfRoleCaCertDer
 	state.caCertDer = append(state.caCertDer, caCertDer)
 	// Assignment of signer MUST be the last operation after
 	// all error checks
